@@ -1,5 +1,7 @@
 # C17: application lists.  Exhaustive small scope + random, through the list hook.
 import itertools
+import invgen as G
+from common import S, unhx, obs_kind
 
 
 def splits(seq, maxparts):
@@ -46,8 +48,87 @@ def run(tier, rng, C):
         cases.append({'id': cid, 'line': line(C, cid, kind, lists),
                       'show': ('removable ' if kind == 'r' else 'unique ') + repr(lists),
                       'nontrivial': any(x.startswith('~') for l in lists for x in l) or kind == 'u'})
+    # end to end: nodes over include graphs whose classes and node carry application lists with negations; the
+    # node's list is the replay, in the order in which the classes were merged (read off the rendered `trace`
+    # parameter), of the classes' own lists, the node's own list last
+    meta = {}
+    for i in range(150 if tier == 'quick' else 5000):
+        inv, names, incl = G.include_graph_inv(rng, cyclic=False, refs=0.2, conflicts=False, relative=0.2)
+        # richer application lists
+        for p in sorted(inv.classes):
+            d = inv.classes[p]
+            apps = [rng.choice(['a1', 'a2', 'a3', '~a1', '~a2', '~a3', 'a4']) for _ in range(rng.randint(0, 4))]
+            inv.classes[p] = ('m', [(k, ('l', [S(a) for a in apps]) if k == S('applications') else v) for k, v in d[1]]
+                              + ([] if any(k == S('applications') for k, _ in d[1]) else [(S('applications'), ('l', [S(a) for a in apps]))]))
+        for np_ in sorted(inv.nodes):
+            cid = C.case_id('w', n)
+            n += 1
+            name = np_[-1][:-4]
+            cases.append({'id': cid, 'line': G.inv_line(cid, inv, G.op_node(name)), 'show': G.show_inv(inv, 'node ' + name),
+                          'nontrivial': True})
+            meta[cid] = (inv, np_)
+
+    def r_append(items, negs, x):
+        if x.startswith('~'):
+            ng = x[1:]
+            if ng in items:
+                items.remove(ng)
+            elif ng not in negs:
+                negs.append(ng)
+        elif x in negs:
+            negs.remove(x)
+        elif x not in items:
+            items.append(x)
+
+    def r_from(xs):
+        items, negs = [], []
+        for x in xs:
+            r_append(items, negs, x)
+        return items, negs
+
+    def apps_of(doc):
+        for k, v in doc[1]:
+            if k == S('applications') and v[0] == 'l':
+                return [x[1] for x in v[1]]
+        return []
+
+    def oracle(cases, mobs, iobs):
+        fails = []
+        for c in cases:
+            if c['id'] not in meta:
+                continue
+            inv, np_ = meta[c['id']]
+            o = iobs.get(c['id'], '')
+            if obs_kind(o) != 'ok':
+                continue
+            toks = o.split(' ')
+            ia = toks.index('A')
+            na = int(toks[ia + 1])
+            got = [unhx(x[1:]) for x in toks[ia + 2:ia + 2 + na]]
+            params = C.parse_canon(o.split(' P ', 1)[1].split(' '))[0]
+            tr = [x for kk, x, _ in params[1] if kk == ('str', 'trace')]
+            order = [e[1] for e in tr[0][1]] if tr else []
+            byname = {'.'.join(p[:-1] + (p[-1][:-4],)): d for p, d in inv.classes.items()}
+            items, negs = [], []
+            okay = True
+            for nm in order:
+                d = inv.nodes[np_] if nm == 'NODE' else byname.get(nm)
+                if d is None:
+                    okay = False
+                    break
+                oi, on = r_from(apps_of(d))
+                for x in on:
+                    r_append(items, negs, '~' + x)
+                for x in oi:
+                    r_append(items, negs, x)
+            if okay and got != items:
+                fails.append({'key': 'applications-not-in-merge-order', 'severity': 'fail', 'show': c['show'], 'lines': [c['line']],
+                              'reason': 'applications %s; replaying the lists of the merged classes %s in merge order gives %s' % (got, order, items),
+                              'model': C.describe(mobs.get(c['id'], ''))[:300], 'impl': C.describe(o)[:300], 'size': len(c['line'])})
+        return fails
     rule = ('exhaustive: every sequence of length <= %d over {a,b,~a,~b} cut into <= 3 lists in every way, '
             'each list loaded with From<Vec<String>> and merged left to right (RemovableList through the hook); '
             'plus %d random cases over a richer alphabet (multi-byte, empty, double markers) incl. UniqueList; '
+            'plus nodes over random include graphs whose classes carry application lists with negations (oracle: replay in merge order); '
             'non-trivial = contains a negation (or exercises UniqueList)' % (maxlen, nrand))
-    return C.standard_run(cases, rule, key_fn=lambda c, m, i, r: 'list-state-differs', exhaustive=True)
+    return C.standard_run(cases, rule, key_fn=lambda c, m, i, r: 'list-state-differs', exhaustive=True, extra_oracle=oracle)
